@@ -9,6 +9,13 @@
 * which re function does the matching (search / match / fullmatch) and the comparison operator of
   the best-match choice
 * the constants of SSHKnownHosts.lookup ("|1|", "|", "sha1", ",")
+* the per-path cache: ssh_config_factory keys SSHConfig._config_files by the path it is given and
+  stores the object it parsed from that path; and whether anything WRITES to the live Host object
+  SSHConfig.lookup hands out of the cached parse (scrapli/ssh_config.py lookup/_lookup_fuzzy_match
+  themselves, and every function of ssh_config.py / driver/base/base_driver.py that binds the
+  result of a `.lookup(...)` call): attribute store / delete / augmented assignment, setattr /
+  delattr.  Any other use of the result than reading an attribute (passing it on, aliasing,
+  returning it, calling a method, __dict__) aborts the generation: fail-closed.
 """
 import ast
 import os
@@ -55,6 +62,144 @@ def _classify(rx, c):
                 and all(rx.fullmatch(x) is not None and rx.fullmatch(x).group(1) == x for x in asc if x != "\n")):
             return 2
     raise ValueError("pattern character %r translates to a regex of unknown behaviour: %r" % (c, rx.pattern))
+
+
+MUTATING_METHODS = {"update", "pop", "clear", "setdefault", "popitem", "__setitem__", "__setattr__", "__delattr__",
+                    "__delitem__", "_merge_hosts", "_parse", "append", "extend", "insert", "remove", "sort"}
+
+
+def _parents(tree):
+    par = {}
+    for n in ast.walk(tree):
+        for c in ast.iter_child_nodes(n):
+            par[c] = n
+    return par
+
+
+def _funcs(tree):
+    return [n for n in ast.walk(tree) if isinstance(n, (ast.FunctionDef, ast.AsyncFunctionDef))]
+
+
+def _is_lookup_call(n):
+    return isinstance(n, ast.Call) and isinstance(n.func, ast.Attribute) and n.func.attr == "lookup"
+
+
+def lookup_result_writes(tree, label, skip_classes=()):
+    """attribute names written on an object bound from `<x>.lookup(...)`, in every function of the module"""
+    par = _parents(tree)
+    written = []
+    skip = set()
+    for node in tree.body:
+        if isinstance(node, ast.ClassDef) and node.name in skip_classes:
+            skip.update(id(x) for x in ast.walk(node))
+    for f in _funcs(tree):
+        if id(f) in skip:
+            continue
+        names = set()
+        for n in ast.walk(f):
+            if _is_lookup_call(n):
+                p = par.get(n)
+                if (isinstance(p, ast.Assign) and p.value is n and len(p.targets) == 1 and isinstance(p.targets[0], ast.Name)):
+                    names.add(p.targets[0].id)
+                elif isinstance(p, ast.AnnAssign) and p.value is n and isinstance(p.target, ast.Name):
+                    names.add(p.target.id)
+                else:
+                    raise ValueError("%s:%s: the result of .lookup() is used without being bound to a name (line %d)"
+                                     % (label, f.name, n.lineno))
+        if not names:
+            continue
+        for n in ast.walk(f):
+            if not (isinstance(n, ast.Name) and n.id in names):
+                continue
+            p = par.get(n)
+            if isinstance(n.ctx, ast.Store):
+                if isinstance(p, (ast.Assign, ast.AnnAssign)) and _is_lookup_call(p.value):
+                    continue
+                raise ValueError("%s:%s: %s is rebound (line %d)" % (label, f.name, n.id, n.lineno))
+            if isinstance(p, ast.Attribute) and p.value is n:
+                if isinstance(p.ctx, (ast.Store, ast.Del)):
+                    written.append(p.attr)
+                    continue
+                pp = par.get(p)
+                if isinstance(pp, ast.AugAssign) and pp.target is p:
+                    written.append(p.attr)
+                    continue
+                if p.attr.startswith("__") or (isinstance(pp, ast.Call) and pp.func is p):
+                    raise ValueError("%s:%s: %s.%s is not a plain attribute read (line %d)" % (label, f.name, n.id, p.attr, n.lineno))
+                continue
+            if isinstance(p, ast.Call) and isinstance(p.func, ast.Name) and p.func.id in ("setattr", "delattr") \
+                    and p.args and p.args[0] is n:
+                a = p.args[1] if len(p.args) > 1 else None
+                written.append(a.value if isinstance(a, ast.Constant) and isinstance(a.value, str) else "?")
+                continue
+            if isinstance(p, ast.Call) and isinstance(p.func, ast.Name) and p.func.id in ("getattr", "hasattr", "bool", "repr", "str") \
+                    and p.args and p.args[0] is n:
+                continue
+            raise ValueError("%s:%s: the object returned by lookup (%s) escapes (line %d): only attribute reads are understood"
+                             % (label, f.name, n.id, n.lineno))
+    return written
+
+
+def read_only_function(func, label):
+    """stores performed by a function that must only read (SSHConfig.lookup / _lookup_fuzzy_match)"""
+    bad = []
+    # names only ever bound to a fresh list / dict literal in this function: private scratch
+    binds = {}
+    for n in ast.walk(func):
+        if isinstance(n, ast.Assign):
+            for t in n.targets:
+                if isinstance(t, ast.Name):
+                    binds.setdefault(t.id, []).append(isinstance(n.value, (ast.List, ast.Dict, ast.ListComp, ast.DictComp)))
+    scratch = {k for k, v in binds.items() if all(v)}
+
+    def root(e):
+        while isinstance(e, (ast.Attribute, ast.Subscript, ast.Call)):
+            e = e.func if isinstance(e, ast.Call) else e.value
+        return e.id if isinstance(e, ast.Name) else None
+    for n in ast.walk(func):
+        if isinstance(n, (ast.Attribute, ast.Subscript)) and isinstance(n.ctx, (ast.Store, ast.Del)):
+            bad.append("%s:store@%d" % (label, n.lineno))
+        if isinstance(n, ast.Call):
+            if isinstance(n.func, ast.Name) and n.func.id in ("setattr", "delattr"):
+                bad.append("%s:%s@%d" % (label, n.func.id, n.lineno))
+            if isinstance(n.func, ast.Attribute) and n.func.attr in MUTATING_METHODS and root(n.func.value) not in scratch:
+                bad.append("%s:.%s()@%d" % (label, n.func.attr, n.lineno))
+        if isinstance(n, (ast.Global, ast.Nonlocal)):
+            bad.append("%s:global@%d" % (label, n.lineno))
+    return bad
+
+
+def factory_keyed_by_path(tree):
+    """ssh_config_factory(path): membership test, read and store of SSHConfig._config_files all use the
+    parameter as the key; the stored object is SSHConfig(<the parameter>)"""
+    fs = [n for n in tree.body if isinstance(n, ast.FunctionDef) and n.name == "ssh_config_factory"]
+    if len(fs) != 1 or len(fs[0].args.args) != 1:
+        raise ValueError("ssh_config_factory not found in the expected shape")
+    f = fs[0]
+    param = f.args.args[0].arg
+    ok = True
+    subs = [n for n in ast.walk(f) if isinstance(n, ast.Subscript)]
+    stores = [n for n in subs if isinstance(n.ctx, ast.Store)]
+    loads = [n for n in subs if isinstance(n.ctx, ast.Load)]
+    if len(stores) != 1 or not loads:
+        raise ValueError("ssh_config_factory: expected one store into the cache and a read of it")
+    for n in subs:
+        ok = ok and isinstance(n.slice, ast.Name) and n.slice.id == param
+    cmps = [n for n in ast.walk(f) if isinstance(n, ast.Compare)]
+    if len(cmps) != 1 or len(cmps[0].ops) != 1 or not isinstance(cmps[0].ops[0], ast.In):
+        raise ValueError("ssh_config_factory: expected exactly one `in` test")
+    ok = ok and isinstance(cmps[0].left, ast.Name) and cmps[0].left.id == param
+    ctor = [n for n in ast.walk(f) if isinstance(n, ast.Call) and isinstance(n.func, ast.Name) and n.func.id == "SSHConfig"]
+    if len(ctor) != 1:
+        raise ValueError("ssh_config_factory: expected exactly one SSHConfig(...) call")
+    cargs = list(ctor[0].args) + [k.value for k in ctor[0].keywords]
+    ok = ok and len(cargs) == 1 and isinstance(cargs[0], ast.Name) and cargs[0].id == param
+    # the stored value is the constructed object
+    st = [n for n in ast.walk(f) if isinstance(n, ast.Assign) and any(t is stores[0] for t in n.targets)]
+    bound = [n.targets[0].id for n in ast.walk(f) if isinstance(n, ast.Assign) and n.value is ctor[0]
+             and len(n.targets) == 1 and isinstance(n.targets[0], ast.Name)]
+    ok = ok and len(st) == 1 and ((isinstance(st[0].value, ast.Name) and st[0].value.id in bound) or st[0].value is ctor[0])
+    return ok
 
 
 def generate(outdir):
@@ -145,12 +290,22 @@ def generate(outdir):
     lines.append("Definition gen_kh_prefix : list N := %s." % _b("|1|"))
     lines.append("Definition gen_kh_bar : N := %d." % ord("|"))
     lines.append("Definition gen_kh_comma : N := %d." % ord(seps[0]))
+    # the per-path cache and the consumers of the live object lookup returns
+    path_drv = os.path.join(common.REPO, "scrapli", "driver", "base", "base_driver.py")
+    writes = lookup_result_writes(ast.parse(open(path_drv).read()), "base_driver.py")
+    writes += lookup_result_writes(tree, "ssh_config.py", skip_classes=("SSHKnownHosts",))
+    writes += read_only_function(_find_func(tree, "SSHConfig", "lookup"), "SSHConfig.lookup")
+    writes += read_only_function(f, "SSHConfig._lookup_fuzzy_match")
+    keyed = factory_keyed_by_path(tree)
+    lines.append("Definition gen_lookup_result_written : bool := %s." % ("true" if writes else "false"))
+    lines.append("Definition gen_factory_keyed_by_path : bool := %s." % ("true" if keyed else "false"))
     text = "\n".join(lines) + "\n"
     path = os.path.join(outdir, "Gen_SshConfig.v")
     if not os.path.exists(path) or open(path).read() != text:
         open(path, "w").write(text)
     return path, {"host_attrs": list(attrs), "match_fn": res.func.attr, "flags": flags,
-                  "best_cmp": type(cmps[0].ops[0]).__name__, "classified_chars": len(classes)}
+                  "best_cmp": type(cmps[0].ops[0]).__name__, "classified_chars": len(classes),
+                  "lookup_result_writes": sorted(set(writes)), "factory_keyed_by_path": keyed}
 
 
 if __name__ == "__main__":
